@@ -65,6 +65,24 @@ IgnoredTR(s, i, layout) ==
      IN q # 0 /\ q + 2 <= i /\ IsTxt(s[q + 1]) /\ s[q + 1].k \in {"OF", "COMMA"} /\ s[q + 2].t = "TR"
 MatchedTR(s, layout) == {i \in TRIdx(s) : ~IgnoredTR(s, i, layout)}
 
+\* --- warning flags of the two finders (kinds; they travel with the chunk's staged flags) ---------------
+WKinds == {"twprge_ignored", "sec_ignored", "multisec_ignored", "multisec_found", "pulled_sec_without_colon", "sec_within"}
+IsW(f) == f \in WKinds
+TRWarn(s, l) == [j \in 1..Cardinality({i \in TRIdx(s) : IgnoredTR(s, i, l)}) |-> "twprge_ignored"]
+\* one pass of the section finder: a rejected section is reported as ignored, an accepted list as found
+RECURSIVE SecPassWarn(_, _, _, _)
+SecPassWarn(s, i, l, second) ==
+  IF i > Len(s) THEN <<>>
+  ELSE IF s[i].t # "SEC" THEN SecPassWarn(s, i + 1, l, second)
+  ELSE LET rej == IF second THEN RejectedSecondPass(s, i, l) ELSE RejectedFirstPass(s, i, l, Cfg.colon)
+       IN (IF rej THEN <<IF s[i].multi THEN "multisec_ignored" ELSE "sec_ignored">>
+           ELSE IF s[i].multi THEN <<"multisec_found">> ELSE <<>>) \o SecPassWarn(s, i + 1, l, second)
+SecondPassNeeded(s, l, colon) == colon = "cautious" /\ ColonRuleApplies(l) /\ {i \in SecIdx(s) : ~RejectedFirstPass(s, i, l, colon)} = {}
+SecWarn(s, l) ==
+  IF ~SecondPassNeeded(s, l, Cfg.colon) THEN SecPassWarn(s, 1, l, FALSE)
+  ELSE SecPassWarn(s, 1, l, TRUE) \o (IF {i \in SecIdx(s) : ~RejectedSecondPass(s, i, l)} # {} THEN <<"pulled_sec_without_colon">> ELSE <<>>)
+FinderWarn(s, l) == TRWarn(s, l) \o SecWarn(s, l)
+
 \* --- PLSSChunker -------------------------------------------------------------------
 \* cleanup_desc() on a chunk strips punctuation at both ends and the culled words (of, in, ...) at its end
 RECURSIVE TrimHi(_, _)
@@ -142,7 +160,10 @@ FindMatches ==
         /\ msec' = {G(i) : i \in (IF l0 = "copy_all" THEN SecIdx(CT) ELSE Accepted(CT, l0, Cfg.colon))}
         /\ wphase' = IF l0 = "copy_all" THEN "fallback" ELSE "prime"
   /\ k' = 0 /\ wtr' = 0 /\ wsec' = 0 /\ ltr' = <<>> /\ lsec' = <<>> /\ utr' = FALSE /\ usec' = FALSE
-  /\ comps' = <<>> /\ unused' = <<>> /\ eflags' = <<>>
+  /\ comps' = <<>> /\ unused' = <<>>
+  /\ eflags' = (LET mandated == ~Cfg.segment /\ Cfg.forced # "none"
+                    l0 == IF play = "copy_all" THEN "copy_all" ELSE IF mandated THEN play ELSE Deduce(CT)
+                IN FinderWarn(CT, l0))
   /\ UNCHANGED <<vars, play, cleaned, chunks, nchunks, lo, hi, gcomps, gunused, geflags, fell>>
 Prime ==
   /\ wphase = "prime"
@@ -194,8 +215,10 @@ SecWithin ==
   /\ IF Len(comps) # 1 THEN UNCHANGED <<comps, unused>>
      ELSE /\ comps' = <<[comps[1] EXCEPT !.blk = Attach(unused, 1, comps[1].blk)]>>
           /\ unused' = <<>>
+  \* (a tract whose text was put together again is reported with a sec_within warning)
+  /\ eflags' = eflags \o (IF Len(comps) = 1 /\ Attach(unused, 1, comps[1].blk) # comps[1].blk THEN <<"sec_within">> ELSE <<>>)
   /\ wphase' = "endchunk"
-  /\ UNCHANGED <<vars, play, cleaned, chunks, nchunks, lo, hi, lay, mtr, msec, k, wtr, wsec, ltr, lsec, utr, usec, eflags,
+  /\ UNCHANGED <<vars, play, cleaned, chunks, nchunks, lo, hi, lay, mtr, msec, k, wtr, wsec, ltr, lsec, utr, usec,
                  gcomps, gunused, geflags, fell>>
 \* no tract: the chunk is parsed again as copy_all (first section number only); its staged flags replace the chunk's
 FallBack ==
@@ -204,7 +227,7 @@ FallBack ==
          one == [blk |-> [j \in 1..(hi - lo + 1) |-> lo + j - 1], sec |-> IF secs # <<>> THEN Head(secs) ELSE -1,
                  tr |-> IF trs # <<>> THEN Head(trs) ELSE -1, first |-> TRUE]
      IN comps' = IF Fault = "double_handoff" /\ lay # "copy_all" THEN <<one, one>> ELSE <<one>>
-  /\ unused' = <<>> /\ eflags' = <<>> /\ wphase' = "endchunk"
+  /\ unused' = <<>> /\ eflags' = FinderWarn(CT, "copy_all") /\ wphase' = "endchunk"
   /\ fell' = (nchunks = 1 /\ lo = 1 /\ hi = Len(toks))
   /\ UNCHANGED <<vars, play, cleaned, chunks, nchunks, lo, hi, lay, mtr, msec, k, wtr, wsec, ltr, lsec, utr, usec, gcomps, gunused, geflags>>
 EndChunk ==
@@ -217,9 +240,11 @@ Top ==
   /\ wphase = "top"
   /\ IF Cfg.secwithin /\ Len(gcomps) = 1
      THEN /\ gcomps' = <<[gcomps[1] EXCEPT !.blk = Attach(gunused, 1, gcomps[1].blk)]>> /\ gunused' = <<>>
-     ELSE UNCHANGED <<gcomps, gunused>>
+          /\ geflags' = geflags \o (IF Attach(gunused, 1, gcomps[1].blk) # gcomps[1].blk /\ ~\E j \in 1..Len(geflags) : geflags[j] = "sec_within"
+                                     THEN <<"sec_within">> ELSE <<>>)
+     ELSE UNCHANGED <<gcomps, gunused, geflags>>
   /\ wphase' = "finish"
-  /\ ChunkVarsUnchanged /\ UNCHANGED <<vars, play, cleaned, chunks, nchunks, lo, hi, geflags, fell>>
+  /\ ChunkVarsUnchanged /\ UNCHANGED <<vars, play, cleaned, chunks, nchunks, lo, hi, fell>>
 Finish ==
   /\ wphase = "finish"
   /\ geflags' = geflags \o [j \in 1..Len(SelectSeq(gunused, LAMBDA u : Reportable(u.blk))) |-> "unused_desc"]
@@ -252,7 +277,8 @@ ProjComps == [j \in 1..Len(gcomps) |->
                  marks |-> SelectSeq(gcomps[j].blk, LAMBDA i : i \in LongToks)]]
 ProjUnused == [j \in 1..Len(ReportableUnused) |-> SelectSeq(ReportableUnused[j].blk, LAMBDA i : i \in LongToks)]
 WCase == [toks |-> toks, cfgname |-> cfgname, cfg |-> Cfg, lay |-> play, fell |-> fell, nchunks |-> nchunks,
-          comps |-> ProjComps, unused |-> ProjUnused, eflags |-> geflags,
+          comps |-> ProjComps, unused |-> ProjUnused, eflags |-> SelectSeq(geflags, LAMBDA f : ~IsW(f)),
+          wflags |-> SelectSeq(geflags, IsW),
           x |-> [forced_copy_all |-> Cfg.forced = "copy_all", must_fall_back |-> MustFallBack(toks, Cfg), both_found |-> BothFound(toks)]]
 EmitWalk == (EmitCases /\ wphase = "done") => PrintT(<<"CASE", ToJson(WCase)>>)
 =============================================================================
